@@ -435,6 +435,79 @@ fn histories(run: &Run, tier: Tier, lists: &[(Ty, ListKind)]) -> (u64, u64) {
     (states, transitions)
 }
 
+/// Every sequence of list registrations (always / never list for Int, Bytes, Ip), refused
+/// duplicates included: `x in $name` is answered by the list whose registration for x's type was
+/// accepted - the first one - whatever was attempted afterwards.
+fn registration_histories(run: &Run, tier: Tier) {
+    use wirefilter::{AlwaysList, NeverList, SchemeBuilder, Type};
+    let ops: [(Type, bool); 6] = [(Type::Int, true), (Type::Int, false), (Type::Bytes, true), (Type::Bytes, false), (Type::Ip, true), (Type::Ip, false)];
+    let probes: [(Type, &str); 3] = [(Type::Int, "i in $any.name"), (Type::Bytes, "s in $any.name"), (Type::Ip, "any(xip[*] in $any.name)")];
+    let max = tier.pick(4usize, 5usize);
+    for len in 0..=max {
+        for code in 0..ops.len().pow(len as u32) {
+            let mut x = code;
+            let hist: Vec<(Type, bool)> = (0..len)
+                .map(|_| {
+                    let o = ops[x % ops.len()];
+                    x /= ops.len();
+                    o
+                })
+                .collect();
+            run.eval(1);
+            run.count("registration_histories", 1);
+            let r = guarded(|| -> Vec<String> {
+                let mut problems = Vec::new();
+                let mut b = SchemeBuilder::new();
+                b.add_field("i", Type::Int).unwrap();
+                b.add_field("s", Type::Bytes).unwrap();
+                b.add_field("xip", Type::Array(Type::Ip.into())).unwrap();
+                let mut model: Vec<(Type, bool)> = Vec::new();
+                for (k, (ty, always)) in hist.iter().enumerate() {
+                    let got = if *always { b.add_list(*ty, AlwaysList {}).is_ok() } else { b.add_list(*ty, NeverList {}).is_ok() };
+                    let want = !model.iter().any(|(t, _)| t == ty);
+                    if want {
+                        model.push((*ty, *always));
+                    }
+                    if got != want {
+                        problems.push(format!("registration {k} ({ty:?}) {}", if got { "was accepted" } else { "was refused" }));
+                    }
+                }
+                let scheme = b.build();
+                let mut ctx = wirefilter::ExecutionContext::<()>::new(&scheme);
+                ctx.set_field_value(scheme.get_field("i").unwrap(), 1i64).unwrap();
+                ctx.set_field_value(scheme.get_field("s").unwrap(), "a").unwrap();
+                let ips = wirefilter::Array::try_from_iter(Type::Ip, [std::net::IpAddr::from([1u8, 2, 3, 4]), std::net::IpAddr::from([0u16, 0, 0, 0, 0, 0, 0, 1])]).unwrap();
+                ctx.set_field_value(scheme.get_field("xip").unwrap(), ips).unwrap();
+                for (ty, text) in probes {
+                    let want = model.iter().find(|(t, _)| *t == ty).map(|(_, a)| *a);
+                    let got = match scheme.parse(text) {
+                        Err(_) => None,
+                        Ok(ast) => Some(ast.compile().execute(&ctx).expect("same scheme")),
+                    };
+                    if got != want {
+                        problems.push(format!("{text:?} gives {got:?} (None = rejected at parse time), the accepted registration says {want:?}"));
+                    }
+                    if want.is_some() {
+                        run.count("registration_probes_answered", 1);
+                    }
+                }
+                problems
+            });
+            let problems = match r {
+                Ok(p) => p,
+                Err(p) => vec![format!("panicked: {p}")],
+            };
+            for p in problems {
+                run.violation(
+                    format!("{ID}:registrations:{hist:?}"),
+                    format!("list registrations {hist:?} (type, always-list?): {p}"),
+                    json!({"kind": "c17-registrations", "history": format!("{hist:?}")}),
+                );
+            }
+        }
+    }
+}
+
 pub fn run(tier: Tier, seed: u64) -> i32 {
     let run = Run::new(ID, "model_checking", tier, seed);
     run.assume("the harness list matcher (named sets, records every query) is registered for the types under test; built-in always/never lists are used as they are");
@@ -621,6 +694,7 @@ pub fn run(tier: Tier, seed: u64) -> i32 {
         total_states += s;
         total_transitions += t;
     }
+    registration_histories(&run, tier);
     run.eval(total_transitions);
     run.set("states", json!(total_states));
     run.set("transitions", json!(total_transitions));
